@@ -72,7 +72,8 @@ TInit == /\ tid \in 1..Len(Traces)
          /\ l = 1
          /\ verdict = "ok"
          /\ acfg = [minS |-> TCfg.minS, maxS |-> TCfg.maxS, minL |-> TCfg.minL, maxL |-> TCfg.maxL,
-                    sc |-> TCfg.sc, win |-> TCfg.win, tol |-> TCfg.tol, btol |-> TCfg.btol]
+                    sc |-> TCfg.sc, win |-> TCfg.win, tol |-> TCfg.tol, btol |-> TCfg.btol,
+                    ref |-> 0, rtol |-> 0]
          /\ ab = AState({}, 0, 0, 0)
          /\ viol = "ok"
          /\ st = StateOf(Traces[tid].P0)
